@@ -179,7 +179,7 @@ class Undecided(Exception):
     pass
 
 
-def merge_add(fi, fld):
+def merge_add(fi, fld, mode="add"):
     """Abstractly execute a dict-merging __add__ for the three key classes; returns {class: P}."""
     S, O = P.sym("S"), P.sym("O")
     self_n, other_n = fi.params[0], fi.params[1]
@@ -195,7 +195,7 @@ def merge_add(fi, fld):
     def is_zero(p, k):
         """is the coefficient polynomial zero for keys of class k?  (symbols are generic non-zero coefficients)"""
         if k == "both-cancel":
-            p = p.subst({"O": -S})
+            p = p.subst({"O": -S if mode == "add" else S})
         return p.is_zero()
 
     def operand_of(expr):
@@ -329,6 +329,8 @@ def merge_add(fi, fld):
     # a cancelled key may be dropped or kept with coefficient 0: normalise to "its coefficient is zero"
     g = result.get("both-cancel")
     result["both-cancel"] = P() if (g is None or is_zero(g, "both-cancel")) else g
+    if mode == "sub":
+        return result, {"both": S - O, "both-cancel": P(), "self-only": S, "other-only": -O}
     return result, {"both": S + O, "both-cancel": P(), "self-only": S, "other-only": O}
 
 
@@ -345,6 +347,23 @@ def algebra(repo, rule, only=None):
         for need, fi in (("__add__", add), ("__mul__", mul), ("__neg__", neg), ("__sub__", sub)):
             if fi is None:
                 raise AnalysisError("%s:%s.%s not found" % (mod, cn, need))
+        # ---- the container handed to the constructor is a real container, never a one-shot iterator
+        gens = {n_ for n_, f_ in ci.methods.items() if any(isinstance(x, (ast.Yield, ast.YieldFrom)) for x in ast.walk(f_.node))}
+        gens |= {n_ for n_, f_ in repo.module(mod).functions.items() if "." not in n_ and any(
+            isinstance(x, (ast.Yield, ast.YieldFrom)) for x in ast.walk(f_.node))}
+        for mn_, f_ in sorted(ci.methods.items()):
+            if not (mn_.startswith("__") and mn_.endswith("__")) or mn_ in ("__init__", "__str__", "__repr__"):
+                continue
+            for c_ in ast.walk(f_.node):
+                if isinstance(c_, ast.Call) and norm(c_.func) == cn and len(c_.args) == 1:
+                    from ..flatten import resolve_locals as _rlc
+                    a_ = _rlc(f_.node, c_.args[0])
+                    lazy = isinstance(a_, ast.GeneratorExp) or (isinstance(a_, ast.Call) and norm(a_.func).split(".")[-1] in gens | {
+                        "map", "filter", "zip", "iter", "reversed"})
+                    if lazy:
+                        rule.violation(f_.loc(c_), f_.fq, norm(c_)[:100], "the %s is built over a one-shot iterator (%s): the first use "
+                                       "consumes it, every later use of the same object sees an empty linear combination" % (
+                                           cn, norm(a_)[:40]), "%s/lazy-container" % f_.fq)
         # ---- __add__
         if shape == "dict":
             try:
@@ -448,6 +467,21 @@ def algebra(repo, rule, only=None):
             rule.ok(sub.loc(), sub.fq, t)
         elif t in ("%s + %s" % (a, b), "%s - %s" % (b, a), "-%s + %s" % (a, b), "%s + -%s" % (b, a)):
             rule.violation(sub.loc(), sub.fq, t, "subtraction is not self + (-other)", sub.fq + "/sub")
+        elif shape == "dict":
+            # a subtraction that merges the coefficient maps itself: executed on the key classes like __add__
+            try:
+                got, want = merge_add(sub, fld, mode="sub")
+                for k in ("both", "both-cancel", "self-only", "other-only"):
+                    g = got.get(k)
+                    term = "subtraction, key in %s: result coefficient %s (expected %s)" % (k, g, want[k])
+                    if g is not None and g == want[k]:
+                        rule.ok(sub.loc(), sub.fq, term)
+                    else:
+                        rule.violation(sub.loc(), sub.fq, term, "the difference has the wrong coefficient for a variable present in %s" % (
+                            {"both": "both operands", "both-cancel": "both operands with equal coefficients",
+                             "self-only": "the left operand only", "other-only": "the right operand only"}[k]), "%s/sub/%s" % (sub.fq, k))
+            except Undecided as e:
+                rule.undecided(sub.loc(), sub.fq, t, "subtraction shape not interpretable: %s" % e)
         else:
             rule.undecided(sub.loc(), sub.fq, t, "subtraction shape not interpretable")
 
